@@ -484,6 +484,33 @@ int sweepClockKeep(uint32_t phaseFrom, uint32_t phaseCount) {
       }
     }
   }
+  // Second family: a carried sub-second remainder. Set at phase p, one poll r ms later (r = 0..999, so the clock
+  // carries remainder r), then one gap g = 1..64536 and a reading: T + floor((r + g)/1000). Sixteen phases per
+  // chunk position (the catch-up arithmetic is phase-independent except through the 16-bit wrap, which the r and g
+  // ranges sweep across anyway); only every 4th chunk takes part, to keep the sweep within a few minutes.
+  if ((phaseFrom / 256) % 4 == 0) {
+    for (uint32_t pi = 0; pi < 4; pi++) {
+      uint64_t m0 = 0xFFFF0000ULL + phaseFrom + pi * 61;
+      for (uint32_t r = 0; r < 1000; r++) {
+        for (uint32_t g = 1; g <= 64536; g++) {
+          ace_time::testing::TestableSystemClockLoop clk(nullptr, nullptr, &fm);
+          fm.millis((sim_ulong_t)(uint32_t)m0);
+          clk.setNow(T);
+          fm.millis((sim_ulong_t)(uint32_t)(m0 + r));
+          acetime_t r1 = clk.getNow();
+          fm.millis((sim_ulong_t)(uint32_t)(m0 + r + g));
+          acetime_t r2 = clk.getNow();
+          pairs++;
+          if (r1 != T || r2 != (acetime_t)(T + (r + g) / 1000)) {
+            printf("SWEEPVIOL2 boot=%llu rem=%u gap=%u got=%ld want=%ld\n", (unsigned long long)m0, r, g, (long)r2,
+                (long)(T + (r + g) / 1000));
+            printf("SWEEP pairs=%llu\n", pairs);
+            return 1;
+          }
+        }
+      }
+    }
+  }
   printf("SWEEP pairs=%llu\n", pairs);
   return 0;
 }
